@@ -73,6 +73,19 @@ class C01(ParserSessionProp):
                           spec['world']['grammar'].get('categories'), session.cfg_key(cfg), rec.contexts[pos]))
             if lb is not None and refparser.viterbi.last_alternatives >= 2:
                 add_set(stats, 'nontrivial', key)
+            # a budget at or above the steps the unlimited search needs changes nothing
+            fault = op.get('fault') or {}
+            if fault.get('kind') == 'F1' and fault.get('victim') == sid and fault.get('where') in ('at', 'above'):
+                free = session.alone(world, sid, dict(cfg, max_step=max(cfg['max_step'], 20000)))
+                if free[0] == 'ok' and free[3] is not None and free[3]['pops'] <= cfg['max_step']:
+                    bump(stats, 'probe:budget_exactly_sufficient_checked')
+                    if not session.responses_equal(refparser.canon_response(resp), free[1]):
+                        out.append(Violation(
+                            oracle='sufficient_budget_changes_nothing',
+                            message=(f'sentence {sid}: with max_step={cfg["max_step"]} (the unlimited search needs '
+                                     f'{free[3]["pops"]} steps) the response differs from the unlimited one'),
+                            signature={'kind': 'budget'}))
+                        return out
             if refparser.is_placeholder(resp):
                 if not cut and lb is not None:
                     out.append(Violation(
@@ -100,6 +113,7 @@ class C01(ParserSessionProp):
                     signature={'kind': 'suboptimal'}))
                 return out
             bump(stats, 'optimal_confirmed')
+
         return out
 
 
